@@ -565,6 +565,17 @@ func (g *pg) anyValue() {
 		g.a.pushI(1)
 		g.a.op(opSWAP, opSETITEM)
 		g.push('M', 2)
+	case 8: // sharing without a first-element chain: x = [0, x_prev, x_prev], n times: 2^n values when unfolded
+		n := []int{3, 10, 16, 20}[r.Intn(4)]
+		g.a.pushI(0)
+		g.a.op(opNEWARRAY)
+		for i := 0; i < n; i++ {
+			g.a.op(opDUP)
+			g.a.pushI(0)
+			g.a.pushI(3)
+			g.a.op(opPACK)
+		}
+		g.push('A', 3)
 	case 7: // struct holding an array holding the struct (PACK does not clone)
 		g.a.pushI(0)
 		g.a.op(opNEWSTRUCT, opDUP)
@@ -1148,7 +1159,32 @@ func genEvm(r *hx.Rand) string {
 
 var gasChoices = []uint64{0, 1, 19999, 20000, 30000, 200000, 2000000, 30000000}
 
+// the two expensive witnesses (thorough tier only: ~30 s each)
+func heavyLine(i int) string {
+	ontA := nutils.OntContractAddress
+	a := &asm{}
+	if i == 0 { // x = [0, x, x] thirty times: 2^30 values for BuildParamToNative, ~300 gas to build
+		a.pushI(0).op(opNEWARRAY)
+		for k := 0; k < 30; k++ {
+			a.op(opDUP).pushI(0).pushI(3).op(opPACK)
+		}
+		a.pushBytes([]byte("transfer")).pushBytes(ontA[:]).pushI(0).syscall("Ontology.Native.Invoke")
+		return fmt.Sprintf("V 200000 %s", hx.Hex(a.b))
+	}
+	// x = [0, x] 2.2 million times (13 opcodes per level, 3*10^7 gas: what one Contract.Create costs), no cycle anywhere
+	a.pushI(0).op(opNEWARRAY).pushI(2200000)
+	start := len(a.b)
+	a.op(opSWAP).pushI(0).op(opNEWARRAY, opDUP).pushI(0).op(opAPPEND, opDUP, opROT, opAPPEND, opSWAP, opDEC, opDUP)
+	a.jmp(opJMPIF, start-len(a.b))
+	a.op(opDROP)
+	a.pushBytes([]byte("transfer")).pushBytes(ontA[:]).pushI(0).syscall("Ontology.Native.Invoke")
+	return fmt.Sprintf("V 30000000 %s", hx.Hex(a.b))
+}
+
 func Gen(r *hx.Rand, tier string, i int) string {
+	if tier == "thorough" && i < 2 {
+		return heavyLine(i)
+	}
 	switch k := r.Intn(100); {
 	case k < 45:
 		return fmt.Sprintf("X %d %s", r.Intn(8)/7, hx.Hex(genProg(r, false, tier == "quick")))
@@ -1207,10 +1243,17 @@ func corpus() []string {
 	v(200000, cyc().syscall("System.Runtime.Serialize"))
 	v(200000, cyc().syscall("System.Runtime.Notify"))
 	v(200000, cyc().op(opDUP, opEQUAL))
-	// ONT ID: removeKeyByController / removeKeyByRecovery with key index 0 (recorded under C45)
-	for _, m := range []string{"removeKeyByController", "removeKeyByRecovery", "removeKeyByIndex"} {
-		args := sinkOf(func(s *common.ZeroCopySink) { vb(s, ontID(1)); vu(s, 0); vu(s, 1) })
-		out = append(out, fmt.Sprintf("N ontid %s %s 1", hx.Hex([]byte(m)), hx.Hex(args)))
+	// ONT ID: removeKeyByController / removeKeyByRecovery with key index 0 (recorded under C45): id(2) is controlled by id(1) key 1,
+	// id(1) has the recovery group {id(3)}
+	nl := func(m string, signer int, f func(s *common.ZeroCopySink)) {
+		out = append(out, fmt.Sprintf("N ontid %s %s %d", hx.Hex([]byte(m)), hx.Hex(sinkOf(f)), signer))
+	}
+	signers := sinkOf(func(s *common.ZeroCopySink) { vu(s, 1); vb(s, ontID(3)); vu(s, 1) })
+	for _, idx := range []uint64{0, 1, 2} {
+		idx := idx
+		nl("removeKeyByController", 1, func(s *common.ZeroCopySink) { vb(s, ontID(2)); vu(s, idx); vu(s, 1) })
+		nl("removeKeyByRecovery", 3, func(s *common.ZeroCopySink) { vb(s, ontID(1)); vu(s, idx); vb(s, signers) })
+		nl("removeKeyByIndex", 1, func(s *common.ZeroCopySink) { vb(s, ontID(1)); vu(s, idx); vu(s, 1) })
 	}
 	_ = vmt.ArrayType
 	return out
